@@ -1049,6 +1049,12 @@ ibz_sqrt_mod_p(ibz_t *sqrt, const ibz_t *a, const ibz_t *p)
         mpz_add(amod, *p, amod);
     }
 
+    // 0 is a square, and modulo 2 every residue is its own square root
+    if (mpz_cmp_ui(amod, 0) == 0 || mpz_cmp_ui(*p, 2) == 0) {
+        mpz_set(*sqrt, amod);
+        goto end;
+    }
+
     if (mpz_jacobi(amod, *p) != 1) {
         ret = 0;
         goto end;
@@ -1169,6 +1175,9 @@ ibz_sqrt_mod_2p(ibz_t *sqrt, const ibz_t *a, const ibz_t *p)
     mpz_init(sqrt_modp);
 
     ret = ibz_sqrt_mod_p(&sqrt_modp, a, p);
+    // modulo 2p = 4 only 0 and 1 are squares
+    if (ret != 0 && mpz_cmp_ui(*p, 2) == 0 && mpz_fdiv_ui(*a, 4) >= 2)
+        ret = 0;
     if (ret == 0)
         goto err;
 
